@@ -4,7 +4,8 @@ Protocol obligations which, together with the kernel's atomic compare-and-block 
 R1  the value handed to FUTEX_WAIT as "expected" is 0 on that path (the count just observed), so a post between the load and the wait makes the wait return at once;
 R2  P returns success only through a successful CAS count -> count-1 with count >= 1, and never returns a failure (ETIMEDOUT) on a path that
     performed that CAS (a consumed post is not reported as a timeout); the count is otherwise written only by V's CAS +1 and by init;
-R3  the timed P defines ETIMEDOUT only under (wait result = -1 and errno = ETIMEDOUT and deadline <= now);
+R3  the timed P defines ETIMEDOUT only under (wait result = -1 and errno = ETIMEDOUT and deadline <= now), and the comparison that decides
+    "deadline <= now" is exact for every pair of times (= C18.R2);
 R4  V increments by CAS and then issues FUTEX_WAKE on every path on which the count it found may have been 0 (a sleeper can be blocked only then);
 R5  the timeout pointer is NULL exactly on the path where the deadline compared equal to nsync_time_no_deadline."""
 from .. import util, ir as IR, futexmodel
@@ -236,6 +237,9 @@ def run(ctx, rep):
                     rep.violate(Violation('C12.R4', _where_fn(mod.func(name)), 'V can return without %s: a sleeper blocked in FUTEX_WAIT is not resumed'
                                           % ('incrementing the count' if x.ghost.get(('flag', 'inc')) != 1 else 'issuing FUTEX_WAKE'), site='%s/post-incomplete' % name))
     check_timeout_guards(mod, K, rep, 'C12.R3')
+    # ... and the clock re-check means what it says only if nsync_time_cmp orders every pair of times exactly (shared with C18.R2 / C15.R5)
+    from . import C18
+    C18.check(ctx, rep, {'cmp': 'C12.R3'})
     # R5: NULL timeout <=> no_deadline - decided on the interpretation: the deadline is symbolic over representatives, nsync_time_cmp is
     # interpreted in place, so at each kernel wait the set of deadlines that reach it is known
     eng, exits = res['nsync_mu_semaphore_p_with_deadline']
